@@ -4,7 +4,7 @@
    where "=" means the implementation's observation equals the model's, and props are the ids of
    the properties whose Spec the implementation's observation falsifies on this input. *)
 From Coq Require Import String.
-Require Import Base Node Command.
+Require Import Base Node Command Glob.
 Local Open Scope N_scope.
 
 Definition nstr (n : node) : str := match n with Str s => s | Bytes s => s | _ => [] end.
@@ -78,9 +78,22 @@ Definition eng_command (inp impl : node) : verdict :=
   | _ => bad
   end.
 
+(* ---------------- engine: glob (C13) ---------------- *)
+Definition eng_glob (inp impl : node) : verdict :=
+  match inp with
+  | List [Str p; Str s] =>
+      let m := res_node Bool (_ <- parse_glob p ;; Ok (glob_match p s)) in
+      let spec := match toks p with
+                  | None => List [Str (lit "err")]
+                  | Some t => List [Str (lit "ok"); Bool (lang_matchb t s)]
+                  end in
+      {| model_obs := m; violated := if node_eqb spec impl then [] else [lit "C13"] |}
+  | _ => bad
+  end.
+
 (* ---------------- dispatcher ---------------- *)
 Definition engines : list (str * (node -> node -> verdict)) :=
-  [ (lit "command", eng_command) ].
+  [ (lit "command", eng_command); (lit "glob", eng_glob) ].
 
 Fixpoint find_engine (e : str) (l : list (str * (node -> node -> verdict))) : option (node -> node -> verdict) :=
   match l with
